@@ -245,6 +245,9 @@ def check_C02(tier, seed, t0):
 def check_C03(tier, seed, t0):
     rng = random.Random(3500 + seed)
     descs = P.geig_basic(rng, n_of(tier, 140, 2500), types=types_for(tier), nmax=n_of(tier, 28, 80))
+    # start vector in the null space of the operator: breakdown continued in the B-inner product
+    descs += ["cls=greginv;ty=d;fam=nullA;n=%d;nev=2;ncv=7;seed=%d;hist=N,V1,C0,V1,C0;sv1=e1;args0=%d:%d:-10:3;uplo=ll;store=ss;meas=1" % (12 + i, 300 * seed + i, [0, 3, 7][i % 3], [30, 2, 30][i % 3])
+              for i in range(n_of(tier, 6, 24))]
     models = [("MC_IR.tla", "IR_quick.cfg" if tier == "quick" else "IR_design.cfg", 8)]
     return ir_flow("C03", tier, seed, descs, HERM_NUM, models, COMMON_ASSUME, t0, neg_models=IR_NEG)
 
